@@ -84,8 +84,45 @@ type LoadOpts struct {
 	NoSSA        bool
 }
 
+// overlayFromEnv: VERIF_OVERLAY_DIR holds files (by path relative to the repository root) that
+// replace the tree's files in memory: used by the self-test to analyse a mutated program
+// without writing to /repo.
+func overlayFromEnv(repo string) (map[string][]byte, error) {
+	dir := os.Getenv("VERIF_OVERLAY_DIR")
+	if dir == "" {
+		return nil, nil
+	}
+	out := map[string][]byte{}
+	err := filepath.Walk(dir, func(path string, info os.FileInfo, err error) error {
+		if err != nil || info.IsDir() {
+			return err
+		}
+		rel, _ := filepath.Rel(dir, path)
+		b, err := os.ReadFile(path)
+		if err != nil {
+			return err
+		}
+		out[filepath.Join(repo, rel)] = b
+		return nil
+	})
+	return out, err
+}
+
 func loadProgram(opts LoadOpts) (*Program, error) {
 	repo := repoDir()
+	if opts.Overlay == nil {
+		ov, err := overlayFromEnv(repo)
+		if err != nil {
+			return nil, err
+		}
+		opts.Overlay = ov
+	}
+	if opts.GOOS == "" {
+		opts.GOOS = os.Getenv("VERIF_GOOS")
+	}
+	if opts.GOARCH == "" {
+		opts.GOARCH = os.Getenv("VERIF_GOARCH")
+	}
 	work, err := writeWorkspace(repo)
 	if err != nil {
 		return nil, err
